@@ -284,6 +284,7 @@ def run(tier, seed):
                 cfg["earlier_runs"], cfg["same_path"], cfg["overwrite_flag"] = 1, True, ["numpy.True_", "1", "True"][ci]
             if cfg["target"] == "uniform":
                 cfg["boxed"] = True
+            cfg["afterwards"] = random.Random(cfg["seed"] ^ 0x9E3779B9).choice(["nothing", "nothing", "refused-start", "refused-open"])
             bseed = rnd.randrange(1 << 30)
             unthinned = None
             ts = divisors(P)
@@ -305,8 +306,34 @@ def run(tier, seed):
                         s.sample(fn, dist, initial_model=q0.copy(), proposals=P, online_thinning=t,
                                  overwrite_existing_file={"True": True, "numpy.True_": np.True_, "1": 1}[cfg["overwrite_flag"]],
                                  disable_progressbar=True, **kw)
-                    arr, attrs = read_all(fn)
+                    # the finished file goes on describing its run, whatever is refused afterwards: another sampler that is not allowed to overwrite it,
+                    # a writer that is not allowed to open it (and the garbage collection of those half-started objects)
+                    if cfg["afterwards"] != "nothing":
+                        import gc
+                        from hmclab.Samples import Samples as _Samples
+                        with quiet(), np.errstate(all="ignore"):
+                            try:
+                                if cfg["afterwards"] == "refused-start":
+                                    s2, dist2, q02, kw2 = build(bseed + 1, cfg)
+                                    s2.sample(fn, dist2, initial_model=q02.copy(), proposals=3, disable_progressbar=True, **kw2)
+                                else:
+                                    _Samples(fn, mode="w")
+                                PRINT_ERRORS.append(f"a {cfg['afterwards']} on the finished file was not refused")
+                            except FileExistsError:
+                                pass
+                            s2 = None
+                            gc.collect()
+                    try:
+                        arr, attrs = read_all(fn)
+                    except Exception as e:
+                        findings.append(Finding("C07", f"the finished {ext} file of a run of {P} proposals (thinning {t}) cannot be read back"
+                                                + (f" after a {cfg['afterwards']}" if cfg["afterwards"] != "nothing" else "") + f": {e!r}"[:200],
+                                                {"kind": "file", "problem": "unreadable"}, {"oracle": "file", "stimulus": {"config": cfg, "proposals": P, "thinning": t, "backend": ext}}))
+                        per_backend = None
+                        break
                     per_backend[ext] = (arr, attrs, s, dist)
+                if per_backend is None:
+                    continue
                 arr, attrs, s, dist = per_backend["h5"]
                 trans = s._v_transitions
                 states = [np.vstack([tr["post"]["model"], [[tr["post"]["x"]]]]) for tr in trans]
@@ -318,6 +345,7 @@ def run(tier, seed):
                 st.count(f"earlier runs on the same sampler object={cfg['earlier_runs']}")
                 if cfg["same_path"]:
                     st.count(f"replaces an existing file, overwrite_existing_file={cfg['overwrite_flag']}")
+                st.count(f"afterwards: {cfg['afterwards']}")
                 if t == 1:
                     unthinned = arr
                 problems = []
